@@ -12,7 +12,8 @@ META = {
         "re-open followed by further recording is covered as re-open (reopen harness) + capture step from the invariant the re-open establishes; the direct follow-up-write queries (FOLLOWUP*) are thorough-tier only and had no verdict within 150 s",
         "chains with a non-zero fs offset: undo_open() validates the superblock before the tool sets the offset, so the tools refuse the second run (fails safe; observed natively)",
         "block size changes between captures (undo_set_blksize: key fsblk is in units of the block size at capture time, the header records only the last one)",
-        "keys shortened by the device end that already exist before the step (and their extension after the device grew); E2UNDO_MAX_EXTENT_BLOCKS limit (512 undo blocks per key)",
+        "keys shortened by the device end that already exist before the step (and their extension after the device grew)",
+        "the extent limit is exercised at the scaled values 2 and 3 (hook E2FSPROGS_VERIF_UNDO_MAX_EXTENT_BLOCKS), with the current key exactly at the limit; the real value 512 only enters as the same symbolic comparison",
         "crc VALUES of keys (the crc-chain check is a thorough-tier query only) and of course crc32c itself",
         "tool call sites passing -z; undo_open/undo_close/undo_set_option string parsing",
     ],
@@ -48,6 +49,17 @@ def cap_cfgs():
     c.append(cap("WRITE", 16, 16, cnt=1, offmode=2, **N))             # unaligned offset, no carry
     # KNOWN FINDING (fails on the current tree): unaligned offset, carry case only
     c.append(cap("WRITE", 16, 16, cnt=1, offmode=2, OFF_CARRY=None, **N))
+    # extent limit (hook: -DE2FSPROGS_VERIF_UNDO_MAX_EXTENT_BLOCKS=<n> scales E2UNDO_MAX_EXTENT_BLOCKS): the current key holds
+    # exactly the limit; AT_LIMIT_SHORT additionally pins the case "next saved block adjacent, device ends inside it"
+    X2 = {"E2FSPROGS_VERIF_UNDO_MAX_EXTENT_BLOCKS": 2}
+    X3 = {"E2FSPROGS_VERIF_UNDO_MAX_EXTENT_BLOCKS": 3, "K0MAX": 3}
+    c.append(cap("WRITE", 16, 16, cnt=1, AT_LIMIT_SHORT=None, **X2, **N))
+    c.append(cap("WRITE", 16, 16, cnt=1, AT_LIMIT=None, **X2, **N))
+    c.append(cap("WRITE", 48, 48, cnt=1, AT_LIMIT=None, **X2, **N, **T))
+    c.append(cap("WRITE", 16, 64, cnt=4, AT_LIMIT=None, **X2, **N, **T))
+    c.append(cap("WRITE", 16, 16, cnt=1, nblk=5, AT_LIMIT_SHORT=None, **X3, **N, **T))
+    c.append(cap("WRITE", 16, 16, cnt=1, nblk=5, AT_LIMIT=None, **X3, **N, **T))
+    c.append(cap("WRITE", 16, 16, cnt=1, **X2, **N, **T))      # limit 2, current key of 0..2 blocks (below and at the limit)
     # thorough
     c.append(cap("WRITE_BYTE", 16, 60, **N, **T))
     c.append(cap("WRITE", 16, 64, cnt=4, offmode=1, **N, **T))
